@@ -1092,6 +1092,19 @@ func randDoc(r *rand.Rand) jDoc {
 	if r.Intn(5) == 0 {
 		d.PreCur = []string{"JPY", "USD", "KWD", "EUR"}[r.Intn(4)]
 	}
+	if r.Intn(8) == 0 {
+		// nothing is taxed at all: the tax sum is a plain zero of the currency's precision
+		for i := range d.Lines {
+			d.Lines[i].Taxes = []jCombo{}
+		}
+		for i := range d.Discounts {
+			d.Discounts[i].Taxes = []jCombo{}
+		}
+		for i := range d.Charges {
+			d.Charges[i].Taxes = []jCombo{}
+		}
+		d.Inc = ""
+	}
 	return d
 }
 
